@@ -529,6 +529,35 @@ def impl_one(case):
     return res[0]
 
 
+def c0_table():
+    """What the implementation reads back for each single C0 control at run / paragraph / frame level."""
+    from pptx import Presentation
+    from pptx.util import Emu
+
+    prs = Presentation()
+    tf = prs.slides.add_slide(prs.slide_layouts[6]).shapes.add_textbox(Emu(0), Emu(0), Emu(9), Emu(9)).text_frame
+    out = {}
+    for c in range(32):
+        row = []
+        for level in ("run", "para", "frame"):
+            try:
+                if level == "run":
+                    tf.text = "x"
+                    r = tf.paragraphs[0].runs[0]
+                    r.text = chr(c)
+                    row.append(r.text)
+                elif level == "para":
+                    tf.paragraphs[0].text = chr(c)
+                    row.append(tf.paragraphs[0].text)
+                else:
+                    tf.text = chr(c)
+                    row.append(tf.text)
+            except Exception as e:  # noqa
+                row.append("err:" + exc_name(e))
+        out["0x%02X" % c] = row
+    return out
+
+
 def run(ck, tier, rng):
     ck.build = coq_build("C04")
     scratch = tempfile.mkdtemp(prefix="c04-")
@@ -543,12 +572,16 @@ def run(ck, tier, rng):
             ck.count(c, nontrivial(c), klass(c))
         for c in cases[:2] + cases[1100:1102] + cases[-400:-396] + cases[-3:]:
             ck.sample([repr(t) for t in c], limit=11)
+        c0_readback = c0_table()
         c0 = {}
         for c, o in zip(cases, impl_out):
             if has_nonxml(c):
-                key = "non-xml-char -> " + ("ValueError" if "err:Value" in o else "accepted")
-                c0[key] = c0.get(key, 0) + 1
-        concrete_before = len(ck.violations) + len(ck.known_hits)
+                _k, _st, ops = split_case(c)
+                outs = o.split("|")
+                for op, r in zip(ops, outs):
+                    if has_nonxml(("", "", op)):
+                        key = "non-xml-char -> " + {"err:Value": "ValueError", "err:Index": "IndexError before the text is touched"}.get(r, r[:12])
+                        c0[key] = c0.get(key, 0) + 1
         diffs = 0
         first = None
         if ck.build.ok:
@@ -562,7 +595,7 @@ def run(ck, tier, rng):
                         first = (c, mo, io_)
                     if diffs <= 5:
                         ck.notes.append("diff %r model=%s impl=%s" % (list(c), mo, io_))
-            if diffs and len(ck.violations) + len(ck.known_hits) == concrete_before:
+            if diffs and not ck.violations:
                 ck.violation("correspondence", "model/Text.v and pptx text assignment disagree on %d cases, e.g. %r: model=%s impl=%s; "
                              "the oracle found no input on which the property itself fails" % (diffs, list(first[0]), first[1], first[2]),
                              {"theorem_or_correspondence": "correspondence Text.v ~ pptx/text/text.py + pptx/oxml/text.py (theorems C04_* are about the model only)",
@@ -576,7 +609,8 @@ def run(ck, tier, rng):
                  "(indices out of range, unknown tokens, code points XML cannot carry); every case re-read after %d save/re-open cycle(s); "
                  "non-trivial = an assignment whose string has a control, markup, underscore, astral or edge-blank character onto a prior body with >= 2 paragraphs or properties/fields/breaks" % cycles,
             trusted_base=TB, assumptions=ASSUME,
-            extra={"correspondence_diffs": diffs, "exhaustive": False, "save_reopen_cycles": cycles, "non_xml_char_behaviour": c0},
+            extra={"correspondence_diffs": diffs, "exhaustive": False, "save_reopen_cycles": cycles, "non_xml_char_behaviour": c0,
+                   "c0_readback_run_para_frame": c0_readback},
         )
     finally:
         shutil.rmtree(scratch, ignore_errors=True)
@@ -593,3 +627,11 @@ def replay(rec):
     mo = run_model("C04", [model_fields(case)])[0]
     print("model", mo)
     return 0 if io_ == mo else 1
+
+
+CLAIM = {
+    "tech": "Coq proof over a Gallina model of the text setters/getters (all strings, all prior bodies, all operation histories) + extracted-model correspondence on real shapes/cells + independent oracle incl. save/re-open",
+    "text": "18 theorems closed under the global context: read-back at run/paragraph/frame/cell level equals the documented character-level translation for every string and every prior body; paragraph count, line-break count, no empty runs, pPr/endParaRPr/bodyPr untouched, whitespace verbatim, schema order invariant over any history (fold over operations). The model is tied to text/text.py, oxml/text.py and table.py by running ~32k (quick) / ~211k (thorough) assignments and histories on real lxml-backed objects and on the extracted model, comparing read-backs and the a:p/a:r/a:br/a:fld skeleton.",
+    "note": "save/re-open enters the proof as the hypothesis reparse (ser b) = b and is exercised at run time (1 or 3 cycles per case); property elements are opaque ids; code points outside XML 1.0 are rejected by lxml and not compared.",
+    "ref": "6/C04",
+}
